@@ -329,6 +329,10 @@ func verifT3Tokens() {
 			b.WriteString("null")
 		case 'i', 's':
 			b.WriteString("1")
+		case 'R':
+			b.WriteString("1]")
+		case 'M':
+			b.WriteString("1\"")
 		case 'b':
 			b.WriteString("true")
 		case 't':
@@ -340,6 +344,30 @@ func verifT3Tokens() {
 		}
 	}
 	text := b.String()
+	if ty := os.Getenv("VERIF_T3_TYPE"); ty != "struct_s1" {
+		// other destination types: same comparison through the generic path
+		var mk func() interface{}
+		switch ty {
+		case "slice_int":
+			mk = func() interface{} { return new([]int) }
+		case "array2_int":
+			mk = func() interface{} { return new([2]int) }
+		case "map_u32":
+			mk = func() interface{} { return new(map[uint32]int) }
+		case "bool":
+			mk = func() interface{} { return new(bool) }
+		default:
+			panic("VERIF_T3_TYPE not set for a token replay")
+		}
+		a, c := mk(), mk()
+		e1 := ConfigStd.UnmarshalFromString(text, a)
+		e2 := json.Unmarshal([]byte(text), c)
+		v.Assert((e1 == nil) == (e2 == nil), fmt.Sprintf("sonic and encoding/json disagree on accepting %q into %s: sonic err=%v, encoding/json err=%v", text, ty, e1, e2))
+		if e1 == nil && e2 == nil {
+			v.Assert(reflect.DeepEqual(a, c), fmt.Sprintf("decoded values differ for %q", text))
+		}
+		return
+	}
 	var s1, s2 verifS1
 	var e1 error
 	func() {
